@@ -869,6 +869,18 @@ impl os::TcpAcceptor for Acceptor {
             st.closed = true;
             trace(Ev::ListenClose, st.id, 0, 0);
             with(|w| w.census.listeners -= 1);
+            // connections still in the accept queue are reset, as the kernel does
+            let queued: Vec<(EpConn, SocketAddr)> = st.queue.drain(..).collect();
+            drop(st);
+            for (c, _) in queued {
+                {
+                    let mut g = c.0.lock().unwrap();
+                    g.out.rst = true;
+                    g.out.wake_reader();
+                }
+                os::TcpConn::close_read(&c);
+                os::TcpConn::close_write(&c);
+            }
         }
     }
 }
